@@ -115,6 +115,32 @@ def check_L(part, job):
                 if d > t:
                     fail("synthesis-cplx", "synthesis of %s*e(%d,%d) deviates from Y_lm on the grid by %.3g" % (ph_name, l, m, d), {"l": l, "m": m})
                 part.outcome(("c", np.sign(m), m % 2))
+            # magnitudes: the transform is linear, so a vector of norm 1e-10 or 1e7 is analysed with the same RELATIVE accuracy, and a
+            # complex function whose imaginary part is 1e-9 of its real part keeps that part (absolute accuracy 1e-12 here)
+            if l in (0, 1, L // 2, L) and m in (-l, 0, min(1, l), l):
+                for amp in (1e-10, 1e7):
+                    part.ev()
+                    part.tr(2)
+                    e = np.zeros(len(lmc), dtype=complex)
+                    e[k] = 1j * amp
+                    f = (1j * amp * Bc[k]).reshape(theta.shape)
+                    d = np.abs(sht.analysis(f.astype(np.complex128)) - e).max() / amp
+                    if d > t:
+                        fail("analysis-cplx-scale", "analysis of %g*i*Y(%d,%d) has relative error %.3g" % (amp, l, m, d), {"l": l, "m": m})
+                    d = np.abs(sht.synthesis(e) - f).max() / amp
+                    if d > t:
+                        fail("synthesis-cplx-scale", "synthesis of %g*i*e(%d,%d) has relative error %.3g" % (amp, l, m, d), {"l": l, "m": m})
+                part.ev()
+                part.tr()
+                k0 = ylm.idx_c(l, 0)
+                f = (Bc[k0].real + 1e-9j * (Bc[k] + np.conj(Bc[k])).real).reshape(theta.shape)   # real g + i * 1e-9 * real h
+                e = np.zeros(len(lmc), dtype=complex)
+                e[k0] += 1.0
+                e[k] += 1e-9j
+                e[ylm.idx_c(l, -m)] += 1e-9j * (-1) ** m
+                d = np.abs(sht.analysis(f.astype(np.complex128)) - e).max()
+                if d > 1e-12 * (L + 1):
+                    fail("analysis-cplx-small-imaginary", "analysis of Y(%d,0) + 1e-9*i*(Y(%d,%d)+cc) deviates by %.3g (the small imaginary part must survive)" % (l, l, m, d), {"l": l, "m": m})
     # ---------------- real transform on basis vectors ------------------------------------------------------
     for k, (l, m) in enumerate(lmr):
         if sel is not None and (l, m) not in sel:
